@@ -115,7 +115,17 @@ func (f *Frame) execCall(st *State, x *ssa.Call) Value {
 		vc.havocAll(st, "interface method call "+cc.Method.Name()+" without contract in "+f.fn.Name())
 		return fresh()
 	}
-	switch callee := cc.Value.(type) {
+	target := cc.Value
+	// a call through a package-level function variable that is initialised once with a
+	// function and never written again (e.g. appendFloat32 = encoder.AppendFloat32)
+	if u, ok := target.(*ssa.UnOp); ok && u.Op == token.MUL {
+		if g, ok := u.X.(*ssa.Global); ok {
+			if info := theGlobals.info[g]; info != nil && info.readOnly && !info.ambiguous && info.fnVal != nil {
+				target = info.fnVal
+			}
+		}
+	}
+	switch callee := target.(type) {
 	case *ssa.Builtin:
 		return f.execBuiltin(st, x, callee)
 	case *ssa.Function:
@@ -274,6 +284,14 @@ func (f *Frame) externalCall(st *State, x *ssa.Call, callee *ssa.Function, ext *
 		r := VT{B.App(fn, a)}
 		vc.fact(B.And(B.Le(B.Int(0), r.T), B.Le(r.T, B.Int(int64(bits)))))
 		vc.fact(B.Eq(B.Eq(r.T, B.Int(int64(bits))), B.Eq(a, B.Int(0))))
+		if bits <= 16 {
+			// the trailing-zero count names the lowest set bit
+			for i := uint(0); i < bits; i++ {
+				bit := B.Eq(B.Mod(B.Div(a, B.Big(pow2(i))), B.Int(2)), B.Int(1))
+				lowerZero := B.Eq(B.Mod(a, B.Big(pow2(i))), B.Int(0))
+				vc.fact(B.Eq(B.Eq(r.T, B.Int(int64(i))), B.And(bit, lowerZero)))
+			}
+		}
 		return r
 	}
 	if tu, ok := resT.(*types.Tuple); ok && tu.Len() == 0 {
@@ -440,9 +458,43 @@ func (f *Frame) contractCall(st *State, x *ssa.Call, c *Contract, callee *ssa.Fu
 			vc.note("ASSUMED at the call to %s in %s: %s", name, f.c.Key, ca.Text)
 		}
 	}
+	for _, gp := range c.GhostParams {
+		var cl *Clause
+		if f.c != nil && f.c.CallGhosts[name] != nil {
+			cl = f.c.CallGhosts[name][gp]
+		}
+		if cl == nil {
+			f.oblige(st, "call-ghost", name, fmt.Sprintf("ghost parameter %s of %s is not supplied by the caller (callghost)", gp, c.Key), x.Pos(), B.False(), nil)
+			ctx.names[gp] = CV{VT{B.Fresh(f.prefix+x.Name()+"_ghostarg_"+gp, SInt)}, nil}
+			continue
+		}
+		actx := f.newCtx(st, f.entry)
+		actx.at = x.Block()
+		actx.atEnd = true
+		cc := x.Common()
+		for i, a := range cc.Args {
+			actx.names[fmt.Sprintf("arg%d", i)] = CV{f.lookup(st, a), a.Type()}
+		}
+		t, err := actx.evalIntSafe(cl.E)
+		if err != nil {
+			f.oblige(st, "call-ghost", name, fmt.Sprintf("ghost argument %s cannot be evaluated: %v", cl.Text, err), x.Pos(), B.False(), nil)
+			t = B.Fresh(f.prefix+x.Name()+"_ghostarg_"+gp, SInt)
+		}
+		ctx.names[gp] = CV{VT{t}, nil}
+	}
+	assumedPre := ""
+	if f.c != nil && f.top {
+		if r, ok := f.c.AssumeCalls[name]; ok {
+			assumedPre = r
+			vc.note("ASSUMED in %s: the preconditions of %s hold at its call sites (%s)", f.c.Key, c.Key, r)
+		}
+	}
 	for i, cl := range c.Requires {
 		if isGlobalInv(cl) {
 			continue // data-structure invariant: maintained by its only writers, not a caller obligation
+		}
+		if assumedPre != "" {
+			continue // not proved here and not added to the path condition either (no vacuity risk)
 		}
 		g, err := ctx.evalBoolSafe(cl.E)
 		if err != nil {
@@ -464,6 +516,7 @@ func (f *Frame) contractCall(st *State, x *ssa.Call, c *Contract, callee *ssa.Fu
 		}
 	}
 	pre := st.clone()
+	preRegions := append([]Region{}, vc.regions...)
 	ms := newModSet()
 	for _, a := range c.Assigns {
 		vc.assignEntryClasses(a, c, ms)
@@ -484,6 +537,18 @@ func (f *Frame) contractCall(st *State, x *ssa.Call, c *Contract, callee *ssa.Fu
 	for _, g := range c.Ghosts {
 		// ghost results are existential witnesses: fresh symbols constrained by the postconditions
 		ctx.names[g.Name] = CV{VT{B.Fresh(fmt.Sprintf("%s%s_%s.ghost_%s", f.prefix, x.Name(), name, g.Name), SInt)}, nil}
+	}
+	// "assigns fresh": every object known to the caller before the call keeps its bytes
+	for _, a := range c.Assigns {
+		if a == "fresh" {
+			k := B.BVar("fr", SInt)
+			var in []*Term
+			for _, r := range preRegions {
+				in = append(in, B.And(B.Le(r.Base, k), B.Lt(k, B.Add(r.Base, r.Size))))
+			}
+			Mpre, Mpost := vc.heapGet(pre, "M"), vc.heapGet(st, "M")
+			st.pc = B.And(st.pc, B.Forall([]*Term{k}, B.Implies(B.Or(in...), B.Eq(B.Select(Mpost, k), B.Select(Mpre, k)))))
+		}
 	}
 	// frame conditions of the form M[lo..hi): bytes outside keep their value (bounds may mention results)
 	for _, a := range c.Assigns {
